@@ -109,6 +109,26 @@ pub fn run(ctx: &mut Ctx) {
         }
         ctx.emit.line("spec", "spec:item:bytes-preserved", format!("spec.eq {} true", ok), "true".into(), case);
     }
+    // 1b. every public path that hands a held item back must hand back the held bytes: age attestation selection
+    for k in 0..(if ctx.thorough { 2000 } else { 100 }) {
+        let mut m: Option<NonEmptyMap<String, Tag24<IssuerSignedItem>>> = None;
+        let mut held: Vec<Vec<u8>> = vec![];
+        for age in [18u32, 21, 65] {
+            let ident = format!("age_over_{age}");
+            let val = Value::Bool(age <= 21);
+            let entries = vec![(Value::Text("digestID".into()), Value::Integer(age.into())), (Value::Text("random".into()), Value::Bytes(vec![k as u8; 16])),
+                (Value::Text("elementIdentifier".into()), Value::Text(ident.clone())), (Value::Text("elementValue".into()), val), (Value::Text("zz-extra".into()), Value::Integer(1.into()))];
+            let mut inner = vec![]; let st = rng.gen_range(1..16);
+            nc_encode(&Value::Map(entries), &mut rng, st, &mut inner);
+            let t = Tag24::<IssuerSignedItem>::from_bytes(inner.clone()).unwrap();
+            held.push(inner);
+            match m.as_mut() { None => m = Some(NonEmptyMap::new(ident, t)), Some(mm) => { mm.insert(ident, t); } }
+        }
+        let req = format!("age_over_{}", [10, 18, 20, 21, 30, 65, 70][k % 7]);
+        let r = isomdl::presentation::device::nearest_age_attestation(req.clone(), m.unwrap());
+        let ok = match r { Ok(Some(t)) => held.contains(&t.inner_bytes), Ok(None) => true, Err(_) => false };
+        ctx.emit.line("spec", "spec:item:age-attestation-returns-held-bytes", format!("spec.eq {} true", ok), "true".into(), serde_json::json!({"requested": req, "msg_hex": format!("age{k}")}));
+    }
     // 2. whole documents: storage cycles and transfer in a real session
     let sessions = if ctx.thorough { 150 } else { 12 };
     for s in 0..sessions {
@@ -119,6 +139,19 @@ pub fn run(ctx: &mut Ctx) {
         let mut arr = match ia_v { Value::Array(a) => a, Value::Tag(_, b) => match *b { Value::Array(a) => a, _ => vec![] }, _ => vec![] };
         let prot: Vec<u8> = match s % 3 { 0 => vec![0xa1, 0x01, 0x38, 0x06], 1 => vec![0xbf, 0x01, 0x26, 0xff], _ => vec![0xa1, 0x01, 0x26] };
         arr[0] = Value::Bytes(prot.clone());
+        // the MSO payload in a foreign encoding too (a different issuer's encoder): #6.24(bstr) with a shortest head around non-canonical MSO bytes
+        if s % 4 != 3 {
+            if let Some(Value::Bytes(pl)) = arr.get(2).cloned() {
+                if let Ok(Value::Tag(24, inner)) = cbor::from_slice::<Value>(&pl) {
+                    if let Some(mso_bytes) = inner.as_bytes() {
+                        let mso_v: Value = cbor::from_slice(mso_bytes).unwrap();
+                        let mut nc = vec![]; let st = rng.gen_range(1..16) | 8;
+                        nc_encode(&mso_v, &mut rng, st, &mut nc);
+                        arr[2] = Value::Bytes(wire_tag24(&nc));
+                    }
+                }
+            }
+        }
         let ia_val = if s % 2 == 0 { Value::Tag(18, Box::new(Value::Array(arr.clone()))) } else { Value::Array(arr.clone()) };
         let ia_bytes = to_bytes(&ia_val);
         let ia: MaybeTagged<coset::CoseSign1> = match cbor::from_slice(&ia_bytes) { Ok(x) => x, Err(_) => { ctx.emit.line("spec", "spec:issuerAuth:accepted", "spec.eq rejected accepted".into(), "true".into(), serde_json::json!({"msg_hex": hex::encode(&ia_bytes)})); continue } };
